@@ -168,6 +168,14 @@ static void episode_srv(bool thorough)
         else if (x < 85) { sock[h]->write_fail = !sock[h]->write_fail; oplog("wfail", h, NULL, sock[h]->write_fail); n_wfail++; }
         else if (x < 90) { uint8_t ev[20] = { 1, 1, 3, 0, 1, 0, 1, 0, 0, 1 }; CS101_ASDU e = CS101_ASDU_create(al, false, CS101_COT_SPONTANEOUS, 0, 1, false, false); InformationObject io = (InformationObject) SinglePointInformation_create(NULL, st, st & 1, 0); CS101_ASDU_addInformationObject(e, io); InformationObject_destroy(io); oplog("enq", 0, ev, 0); CS104_Slave_enqueueASDU(slave, e); CS101_ASDU_destroy(e); }
         else if (x < 96) { int dt = prng_below(3) ? prng_range(1, 900) : prng_range(1000, 16000); oplog("tick", dt, NULL, 0); srv_tick(dt); continue; }
+        else if (x < 98) { /* a frame shorter than the APCI must cause no reaction other than closing the connection */
+            SimSocket* p = sim_incoming("10.0.0.8"); if (!p) continue; srv_tick(1); (void) sim_take_output(p, f, sizeof f);
+            static const uint8_t SH[][5] = { { 0x68, 0x00 }, { 0x68, 0x01, 0x07 }, { 0x68, 0x01, 0x43 }, { 0x68, 0x02, 0x07, 0x00 }, { 0x68, 0x03, 0x01, 0x00, 0x00 }, { 0x68, 0x01, 0x01 } };
+            static const int SHN[] = { 2, 3, 3, 4, 5, 3 }; int k = prng_below(6);
+            oplog("short", k, SH[k], SHN[k]); sim_feed(p, SH[k], SHN[k]); srv_tick(1); srv_tick(1);
+            int n = sim_take_output(p, f, sizeof f);
+            if (n > 0) { char h[64]; hexs(h, f, n > 20 ? 20 : n); fail("SHORT", "a %d-octet frame (shorter than the APCI) was answered with %s", SHN[k], h); }
+            sim_peer_close(p); srv_tick(1); continue; }
         else { /* probe: a fresh, well-behaved connection must still be served */
             n_probe++; oplog("probe", 0, NULL, 0); SimSocket* p = sim_incoming("10.0.0.9"); if (!p) { n_probe--; continue; } srv_tick(1); int fn = frame_u(f, 0x43); sim_feed(p, f, fn); srv_tick(1);
             if (p->open && !has_frame(p, 0x83)) fail("STARVED", "a new connection was accepted but its TESTFR act was not answered (open connections %d)", CS104_Slave_getOpenConnections(slave)); else n_probe_ok++;
